@@ -87,10 +87,11 @@ sexp sexp_bit_and (sexp ctx, sexp self, sexp_sint_t n, sexp x, sexp y) {
     } else if (sexp_bignump(y2)) {
       lenx = sexp_bignum_length(x2);
       leny = sexp_bignum_length(y2);
+      /* one extra word, so the top word of the result is pure sign extension */
       if (leny < lenx)
-        res = sexp_copy_bignum(ctx, NULL, x2, 0);
+        res = sexp_copy_bignum(ctx, NULL, x2, lenx+1);
       else
-        res = sexp_copy_bignum(ctx, NULL, y2, 0);
+        res = sexp_copy_bignum(ctx, NULL, y2, leny+1);
       for (i=0, len=sexp_bignum_length(res); i<len; i++)
         sexp_bignum_data(res)[i]
           = (i<lenx ? sexp_bignum_data(x2)[i] : sexp_bignum_sign(x2) < 0 ? -1 : 0) &
